@@ -167,7 +167,10 @@ def readStringBody : Nat → S → S
   | 0, s => s
   | fuel+1, s =>
     let s := s.readChar
-    if s.ch == '"' || s.ch == nul then s else readStringBody fuel s
+    if s.ch == '"' || s.ch == nul then s
+    else
+      -- a string may span lines: the lines it covers are counted (after the break test, on the character just read)
+      readStringBody fuel (if s.ch == '\n' then { s with line := s.line + 1 } else s)
 
 def readString (s : S) : Res :=
   let position := s.position + 1
@@ -185,6 +188,8 @@ def readCharToken (s : S) : Res :=
     | none => .panic
     | some c =>
       let theChar := String.singleton c
+      -- a raw newline as the character of the literal is counted (before the second `read_char`)
+      let s := if c == '\n' then { s with line := s.line + 1 } else s
       let s := s.readChar
       if s.ch == '\'' then .tok (mk s "Char" theChar) s
       else
